@@ -66,8 +66,16 @@ def setup_worker(tier, ctx):
     loki_config['log-level'] = 'error'
 
 
+def pick_gate(idx):
+    if os.environ.get('C2425_NOGATES'):
+        return None
+    if os.environ.get('C2425_ONLYGATES'):
+        return sorted(GATES.values())[idx % len(GATES)]
+    return GATES.get(idx % 32)
+
+
 def gen_project_case(rng, idx):
-    gate = None if os.environ.get('C2425_NOGATES') else GATES.get(idx % 32)
+    gate = pick_gate(idx)
     traits = set()
     extra = {}
     if gate == 'types':
@@ -240,7 +248,10 @@ def run_sequence(case, k, rng, base, res, bump, tier):
     if gate == 'full_features':
         allow |= {'dup_local_name', 'module_level_import', 'function_in_subgraph', 'non_procedure_in_subgraph',
                   'rem_then_rename'}
-    spec, model, info = PL.gen_sequence(rng, P, exp, meta, allow)
+    for _ in range(4):
+        spec, model, info = PL.gen_sequence(rng, P, exp, meta, allow)
+        if spec:
+            break
     traits = set(case['traits']) | info['traits']
     if not case['all_intf'] and any(n == 'wrap' for n, _ in spec) and PL.has_bare_external_calls(P, exp):
         traits.add('bare_external_wrap')
@@ -258,7 +269,9 @@ def run_sequence(case, k, rng, base, res, bump, tier):
         if traits and not label:
             res['inconclusive'] = f'generator defect: gated constructs {sorted(traits)} outside a gated slice'
             return
-        key = f'gated[{label}]:{COARSE.get(kind, "graph-inconsistent")}' if label else f'{kind}:{stage or seqkey}'
+        key = f'gated:{label}' if label else f'{kind}:{stage or seqkey}'
+        if label:
+            msg = f'[{COARSE.get(kind, "graph-inconsistent")}: {kind}:{stage or seqkey}] {msg}'
         if not any(v['key'] == key for v in res['violations']):
             res['violations'].append({'key': key, 'msg': msg[:900], 'witness': witness})
     bump('sequences_run')
@@ -303,10 +316,11 @@ def run_sequence(case, k, rng, base, res, bump, tier):
         return False, spec
     bump('probe_logs_checked')
     visited = [r['item'] for r in log if r['method'] == 'transform_subroutine']
-    if sorted(visited) != sorted(got):
+    selected = {it.name.lower() for it in sched.items if isinstance(it, ProcedureItem) and not it.is_ignored}
+    if sorted(visited) != sorted(selected):
         twice = sorted({v for v in visited if visited.count(v) > 1})
-        bad('probe-visits-differ-from-graph', f'not visited: {sorted(got - set(visited))[:6]}; visited but not in graph: '
-            f'{sorted(set(visited) - got)[:6]}; visited twice: {twice[:6]}')
+        bad('probe-visits-differ-from-graph', f'not visited: {sorted(selected - set(visited))[:6]}; visited but not in graph: '
+            f'{sorted(set(visited) - selected)[:6]}; visited twice: {twice[:6]}')
     for r in log:
         if r['method'] == 'transform_subroutine' and r['ir'] != r['item'].split('#')[-1]:
             bad('probe-gets-routine-with-other-name', f'item {r["item"]} processed with routine {r["ir"]}')
